@@ -190,7 +190,18 @@ class Case:
         if handed[0] and self.real.db.utxo_db.get(b'u' + handed[0] + handed[1]) is not None \
                 and self.real.db.fs_tx_hash(int.from_bytes(handed[1][-5:], 'little'))[0] != txid:
             self.res.bump('split_lookup_job2_saw_row_of_reused_tx_number')
-        out = sus.func(*sus.args)
+        try:
+            out = sus.func(*sus.args)
+        except Exception as e:      # noqa: the real second job raised: an outcome (the mempool task would die)
+            coro.close()
+            self.emit('Q_LOOKUP2B', f'raised {type(e).__name__}', 'q')
+            self.direct_fail.append({
+                'tags': ['lookup_split', 'lookup'],
+                'clause': 'C09: lookup_utxos raised',
+                'detail': f'prevout {be(txid)}:{idx}: the second thread job of lookup_utxos raised {e!r} after the index '
+                          f'changed between its two jobs (the operations of the script between Q_LOOKUP2A and Q_LOOKUP2B); '
+                          f'the exception ends the mempool refresh task'})
+            return
         try:
             coro.send(out)
             raise RuntimeError('lookup_utxos did not return after its second job')
